@@ -12,6 +12,8 @@
    instances at the end. *)
 From P7 Require Import Prelude Crc32 Decomp Comp RoundTrip.
 From P7 Require Aes.
+From P7 Require AesGen CrcGen.
+From P7gen Require AesBuf HelpersCrc.
 Open Scope Z_scope.
 
 (* ------------------------------------------------------------------------------------ *)
@@ -454,3 +456,92 @@ Proof. exact toy_guard_ex. Qed.
 Example C01_toy_worker_spins : forall fuel : nat,
   toy_worker fuel [toy_st 0 0 []] [10] 3 100 [1; 2; 3] 10 100 [] = Err EFuel.
 Proof. exact toy_worker_spins. Qed.
+
+(* ------------------------------------------------------------------------------------ *)
+(* G. The same, over the code as it is NOW (translator tie)                              *)
+(* ------------------------------------------------------------------------------------ *)
+(* AesBuf.* and HelpersCrc.* are the definitions of coq/gen/AesBuf.v and coq/gen/HelpersCrc.v, regenerated by
+   tools/translate.py on every run from py7zr/compressor.py (AESCompressor.compress / flush,
+   AESDecompressor.decompress) and py7zr/helpers.py (calculate_crc32).  The cipher object is abstract: a state and
+   two operations enc / dec that may raise; a generated method takes the object state (bytes of self.buf's view,
+   cipher state) and returns (result, new state).  AesGen.enc_chk Eb / dec_chk Db is CBC over the block function with
+   pycryptodome's ValueError on input that is not a multiple of 16 bytes. *)
+
+(* the hand model of Aes.v (with the ValueError made explicit) IS what the source says, call by call *)
+Theorem C01_gen_aes_compress_is_model : forall (Eb : bytes -> bytes) (st : Aes.cstate) (d : bytes),
+  AesBuf.AESCompressor_compress Aes.cst (AesGen.enc_chk Eb) (Aes.cbuf st) (Aes.ccst st) d
+  = (do r <- Aes.aes_compress_chk Eb st d; Ok (AesGen.c_ret r)).
+Proof. exact AesGen.gen_compress_chk. Qed.
+Print Assumptions C01_gen_aes_compress_is_model.
+
+Theorem C01_gen_aes_flush_is_model : forall (Eb : bytes -> bytes) (st : Aes.cstate),
+  AesBuf.AESCompressor_flush Aes.cst (AesGen.enc_chk Eb) (Aes.cbuf st) (Aes.ccst st)
+  = (do r <- Aes.aes_flush_chk Eb st; Ok (AesGen.c_ret r)).
+Proof. exact AesGen.gen_flush_chk. Qed.
+Print Assumptions C01_gen_aes_flush_is_model.
+
+Theorem C01_gen_aes_decompress_is_model : forall (Db : bytes -> bytes) (st : Aes.dstate) (d : bytes) (max_length : Z),
+  AesBuf.AESDecompressor_decompress Aes.cst (AesGen.dec_chk Db) (Aes.dbuf st) (Aes.dcst st) d max_length
+  = (do r <- Aes.aes_decompress_chk Db st d; Ok (AesGen.d_ret r)).
+Proof. exact AesGen.gen_decompress_chk. Qed.
+Print Assumptions C01_gen_aes_decompress_is_model.
+
+(* ... and with a cipher that never raises, the unchecked model *)
+Theorem C01_gen_aes_unchecked_is_model : forall (Eb Db : bytes -> bytes),
+  (forall st d, AesBuf.AESCompressor_compress Aes.cst (AesGen.enc_tot Eb) (Aes.cbuf st) (Aes.ccst st) d
+                = Ok (AesGen.c_ret (Aes.aes_compress Eb st d))) /\
+  (forall st, AesBuf.AESCompressor_flush Aes.cst (AesGen.enc_tot Eb) (Aes.cbuf st) (Aes.ccst st)
+              = Ok (AesGen.c_ret (Aes.aes_flush Eb st))) /\
+  (forall st d ml, AesBuf.AESDecompressor_decompress Aes.cst (AesGen.dec_tot Db) (Aes.dbuf st) (Aes.dcst st) d ml
+                   = Ok (AesGen.d_ret (Aes.aes_decompress Db st d))).
+Proof.
+  intros Eb Db. split; [exact (AesGen.gen_compress Eb) | split; [exact (AesGen.gen_flush Eb) | exact (AesGen.gen_decompress Db)]].
+Qed.
+Print Assumptions C01_gen_aes_unchecked_is_model.
+
+(* chunking, over the generated methods: a session of compress() calls then flush() on a fresh object never raises and
+   emits the CBC encryption of the zero-padded concatenation of the chunks, however the data is chunked *)
+Theorem C01_gen_aes_compress_chunking : forall (Eb : bytes -> bytes) (iv : bytes) (chunks : list bytes),
+  AesGen.gen_compress_stream Aes.cst (AesGen.enc_chk Eb) iv chunks
+  = Ok (fst (Aes.cbc_enc Eb iv (Aes.pad16 (concat chunks)))).
+Proof. exact AesGen.gen_aes_compress_chunking. Qed.
+Print Assumptions C01_gen_aes_compress_chunking.
+
+(* ... and decompress() calls then the final decompress(b""), on every schedule where a chunk arrives on a non-empty
+   residue only if it completes a block *)
+Theorem C01_gen_aes_decompress_chunking : forall (Db : bytes -> bytes) (iv : bytes) (chunks : list bytes),
+  Aes.dec_chunks_ok 0 chunks = true ->
+  AesGen.gen_decompress_stream Aes.cst (AesGen.dec_chk Db) iv chunks
+  = Ok (fst (Aes.cbc_dec Db iv (Aes.pad16 (concat chunks)))).
+Proof. exact AesGen.gen_aes_decompress_chunking. Qed.
+Print Assumptions C01_gen_aes_decompress_chunking.
+
+(* recorded (the ValueError behaviour of the code as it is): a short chunk on a non-empty residue makes the cipher raise *)
+Theorem C01_gen_aes_decompress_short_raises : forall (Db : bytes -> bytes) (buf c d : bytes) (max_length : Z),
+  0 < Aes.blen buf -> 0 < Aes.blen d -> Aes.blen buf + Aes.blen d < 16 ->
+  AesBuf.AESDecompressor_decompress Aes.cst (AesGen.dec_chk Db) buf c d max_length = Err EOther.
+Proof. exact AesGen.gen_decompress_short_raises. Qed.
+Print Assumptions C01_gen_aes_decompress_short_raises.
+
+(* helpers.calculate_crc32: the block loop computes the one-shot CRC, for EVERY function zcrc32 in the place of
+   zlib.crc32 that satisfies the append law and stays in 32 bits, every positive block size, enough fuel for the
+   `while` (one unit per byte suffices; without a positive block size the Python does not terminate) *)
+Theorem C01_gen_calculate_crc32 : forall (zcrc32 : bytes -> Z -> Z),
+  (forall d v, 0 <= v < 2 ^ 32 -> 0 <= zcrc32 d v < 2 ^ 32) ->
+  (forall a b v, 0 <= v < 2 ^ 32 -> zcrc32 (a ++ b) v = zcrc32 b (zcrc32 a v)) ->
+  forall (fuel : nat) (data : bytes) (value blocksize : Z),
+    0 <= value < 2 ^ 32 -> 0 < blocksize -> (length data <= fuel)%nat ->
+    HelpersCrc.calculate_crc32 zcrc32 fuel data value blocksize = Ok (zcrc32 data value).
+Proof. exact CrcGen.gen_calculate_crc32. Qed.
+Print Assumptions C01_gen_calculate_crc32.
+
+(* the hypotheses are met by the CRC-32 of Crc32.v (the model of zlib.crc32): calculate_crc32(data) is crc32 data *)
+Theorem C01_gen_calculate_crc32_is_crc32 : forall (data : bytes),
+  HelpersCrc.calculate_crc32 (fun d v => crc32_update v d) (length data) data 0 (1024 * 1024) = Ok (crc32 data).
+Proof. exact CrcGen.gen_calculate_crc32_default. Qed.
+Print Assumptions C01_gen_calculate_crc32_is_crc32.
+
+Example C01_gen_examples :
+  HelpersCrc.calculate_crc32 (fun d v => crc32_update v d) 9 [49;50;51;52;53;54;55;56;57] 0 4 = Ok 3421780262 /\
+  Aes.dec_chunks_ok 0 [repeatZ 1 17; repeatZ 2 15] = true.
+Proof. split; [exact CrcGen.ex_gen_crc | reflexivity]. Qed.
